@@ -267,6 +267,15 @@ def t_leg(ctx, quick, focus="C09"):
         rec["slug_func"] = "default"
     recs += r.records
     voc2 = [["h", s2c("a"), 1], ["h", s2c("a-1"), 1], ["h", s2c("a-1-1"), 1], ["h", s2c("a-2"), 2]]
+    if focus == "C09":
+        # (links into a slug history with numbered titles: three items over a, a-1, a-1-1, a-2)
+        r = tlc.run("Anchors", tlc.cfg(ctx, "an_mc2.cfg", consts(3, [2]), invariants=INVS + ["Emit"]),
+                    wd=ctx.wd, timeout=3000, defs=defs(voc=voc2))
+        tlc.expect_holds(r, "Anchors[equal titles] M |= S")
+        ctx.add_tlc("Anchors_mc_titles", r, "title sequences <= 3 over a, a-1, a-1-1, a-2")
+        for rec in r.records:
+            rec["slug_func"] = "default"
+        recs += r.records
     if focus == "C10":      # (the slug history and the slug functions are C10's; C09 takes the link resolution runs)
         # equal titles in a row: the suffix history (needs >= 3 equal titles; a-1 collisions)
         voc2 = [["h", s2c("a"), 1], ["h", s2c("a-1"), 1], ["h", s2c("a-1-1"), 1], ["h", s2c("a-2"), 2]]
